@@ -8,7 +8,7 @@ NEEDS_CLI = True
 THOROUGH_ROUNDS = 2
 RULE = ("real binary `hex encode`/`hex decode` (stdin in one write, stdin in pieces with pauses, regular file, named pipe fed in pieces, default argument) vs model: all 256 byte values, "
         "lengths 0..4096 (thorough: every length; quick: 0..64 + sampled + boundaries), round trip of every encode output "
-        "through decode, whitespace/case/prefix layouts, data and text with special byte sequences (BOMs, line endings, NUL, Ctrl-Z, escape/prefix/magic bytes: vlib/magic.py) at the start, end and inside,  malformed (odd, non-hex, non-UTF-8, doubled prefix); "
+        "through decode, whitespace/case/prefix layouts, data and text with special byte sequences (BOMs, line endings, NUL, Ctrl-Z, escape/prefix/magic bytes: vlib/magic.py) at the start, end and inside,  malformed (odd, non-hex, non-UTF-8: every lone byte 0x80..0xFF after / inside / before valid digits, overlong and truncated sequences, doubled prefix); "
         "non-trivial = distinct input")
 EXHAUSTIVE_SWEEPS = {"quick": ["all 256 single bytes (encode and decode)", "lengths 0..64"],
                      "thorough": ["all 256 single bytes (encode and decode)", "every length 0..4096"]}
@@ -103,6 +103,17 @@ def gen(rng, tier):
     bad += [b"0x+a", b"+a", b"0x4a+b", b"4a +B", b"0x++", b"+0x4a", b"0x-a", b"0x_a", b"0x+4", b"0x4+"]
     for b in bad:
         cases.append(Case("cli.hex_decode " + hx(b), tags=("dec", "malformed"), runner="cli"))
+    # input that is not text: every lone byte 0x80..0xFF (in some single-byte code page each of them is a space, a digit or
+    # a letter: 0x85 NEL and 0xA0 NBSP in Latin-1, 0xB2/0xB3/0xB9 superscript digits, …) before, inside and after valid
+    # digits; overlong encodings of a space and of digits, a surrogate, truncated sequences
+    for hb in range(0x80, 0x100):
+        for pat in (b"0x4142%s", b"0x41%s42", b"%s0x4142", b"41 %s 42"):
+            if pat != b"0x4142%s" and tier != "thorough" and hb not in (0x80, 0x85, 0xa0, 0xad, 0xb2, 0xb9, 0xc2, 0xe2, 0xff) and hb % 8:
+                continue
+            cases.append(Case("cli.hex_decode " + hx(pat % bytes([hb])), tags=("dec", "malformed", "lone-high-byte"), runner="cli", meta={"via_file": core.input_route(rng)}, nontrivial=True))
+    for seq in (b"\xc0\xa0", b"\xc0\xb0\xc0\xb0", b"\xe0\x80\xa0", b"\xed\xa0\x80", b"\xc2", b"\xe2\x80", b"\xf0\x9f\x98", b"\xc2\xa0\xa0", b"\x85\xa0", b"\xa0\xa0\xa0", b"\xf8\x88\x80\x80\x80", b"\xfe", b"\xef\xbb"):
+        for pat in (b"0x4142%s", b"0x41%s42", b"%s4142"):
+            cases.append(Case("cli.hex_decode " + hx(pat % seq), tags=("dec", "malformed", "invalid-utf8"), runner="cli", meta={"via_file": core.input_route(rng)}, nontrivial=True))
     for _ in range(200 if tier == "thorough" else 60):
         d = bytearray(layout(rng, rb(rng.randint(1, 12))))
         if d:
